@@ -9,7 +9,7 @@ CONSTANTS NProcs = 2
           EmitOn = TRUE
           Sim = TRUE
 INIT Init
-NEXT Next
+NEXT NextSim
 INVARIANT TypeOk
 INVARIANT NoPartialRead
 INVARIANT NoWrongAnswer
